@@ -105,6 +105,18 @@ def generate(seed, tier):
         for i, m in enumerate(members):
             quads.append([cells[i], ["u", writers.RDF + "first"], m, gr])
             quads.append([cells[i], ["u", writers.RDF + "rest"], cells[i + 1] if i + 1 < len(cells) else ["u", writers.RDF + "nil"], gr])
+    if g.chance(0.25):
+        # blank nodes hanging off one statement, two deep and side by side (the syntaxes can write them in place: [ ... ] in
+        # Turtle/TriG, nested node elements / parseType="Resource" in RDF/XML, embedded node objects in JSON-LD)
+        gr = g.choice([None] + gnames) if quad else None
+        top, pr = g.pick(subs), g.pick([x for x in preds if not x[1].endswith("type")])
+        quads.append([top, pr, ["b", "n1"], gr])
+        quads.append([["b", "n1"], g.pick(preds[:2]), ["b", "n2"], gr])
+        quads.append([["b", "n1"], g.pick(preds), u("C"), gr])
+        quads.append([["b", "n2"], g.pick(preds[:2]), ["l", "deep", None, None], gr])
+        if g.chance(0.6):
+            quads.append([top, pr, ["b", "n3"], gr])
+            quads.append([["b", "n3"], g.pick(preds[:2]), ["l", "side", "en", None], gr])
     if fmt == "xml" and g.chance(0.25):
         # (RDF/XML has rdf:parseType="Literal" for these)
         quads.append([g.pick(subs), g.pick([x for x in preds if not x[1].endswith("type")]), ["l", g.choice(["a <b>c</b> d", "x &amp; y", '<b a="1&amp;2">t</b>', "plain"]), None, writers.RDF + "XMLLiteral"], None])
